@@ -164,7 +164,11 @@ def _envelope_plans():
              ('RunningOrderEnd', B.ro_delete(message_id='22'))],
             [('StorySend', B.story_send('A', [B.p('sent')], message_id='20')), ('RunningOrderEnd', B.ro_delete(message_id='21')),
              ('RunningOrderReplace', B.ro_replace([X], message_id='22')), ('RunningOrderEnd', B.ro_delete(message_id='23'))],
-            [('RunningOrderEnd', B.ro_delete(message_id='20', ro_id='OTHER')), ('StoryAppend', B.story_append([X], message_id='21'))]]
+            [('RunningOrderEnd', B.ro_delete(message_id='20', ro_id='OTHER')), ('StoryAppend', B.story_append([X], message_id='21'))],
+            # messages addressed to another running order, unknown references, duplicates: whatever warns or fails on the way
+            [('RunningOrderReplace', B.ro_replace([X], message_id='20', ro_id='OTHER-RO')), ('StorySend', B.story_send('ZZ', [B.p('x')], message_id='21')),
+             ('StoryInsert', B.story_insert('X', [X], message_id='22')), ('RunningOrderReplace', B.ro_replace([X], message_id='23', ro_id=B.BLANK)),
+             ('StoryDelete', B.story_delete(['X', 'ZZ'], message_id='24'))]]
     out = []
     for v in variants:
         for sq in seqs:
@@ -215,6 +219,7 @@ def run_c14(tier, seed):
     for hs in range(n_hist):
         plans.append(('random', seed * 6007 + 29 * hs))
     plans += [('envelope', k) for k in range(len(_envelope_plans()))]
+    plans += [('envelope-werr', k) for k in range(len(_envelope_plans()))]      # the same with the library's warnings as errors
     for kind, hseed in plans:
         hrng = random.Random(hseed)
         g = gen_hist.Gen(hrng, odd_message_ids=True)
@@ -224,6 +229,7 @@ def run_c14(tier, seed):
             fixed = None
         else:
             ro_tree, fixed = _envelope_plans()[hseed]
+            hseed = hseed + (1000003 if kind == 'envelope-werr' else 0)
             ro_text = TJ.to_text(ro_tree)
             n = len(fixed)
         try:
@@ -267,7 +273,7 @@ def run_c14(tier, seed):
             # `+` itself takes on a running order that is not completed
             via = 'merge' if (not ro.completed and hrng.random() < 0.15) else 'add'
             script.append({'msg_text': msg_text, 'obj': obj, 'via': via})
-            if kind == 'random' and hseed % 4 == 1:
+            if (kind == 'random' and hseed % 4 == 1) or kind == 'envelope-werr':
                 # an application that turns the library's warnings into errors and carries on after catching them:
                 # whatever state that leaves is a reachable state, and it must serialise and read back like any other
                 import warnings as _w
